@@ -15,7 +15,9 @@
 (*          injected outage / the process was killed)                      *)
 (*   End    end of the scenario; sg = ids the REAL store-gateway fetcher   *)
 (*          selects                                                        *)
-(* Every event carries `blocks`: the bucket as observable right after it   *)
+(* Every event carries `gw` (what real store gateways serve, <<>> when the *)
+(* scenario runs without them) and                                         *)
+(* `blocks`: the bucket as observable right after it                       *)
 (* (records id, grp, src, meta, complete, markAge in seconds or -1).       *)
 (* Judged with the property-level operators of Compaction.tla only.        *)
 (***************************************************************************)
@@ -39,6 +41,16 @@ StateClauses(e) ==
     (* "once compaction finishes each sample is served exactly once": a run that returned without error *)
     \cup (IF e.ev = "Quiet" /\ e.err = "" /\ ~e.crashed /\ ~ExactlyOnce(B, ign, SmpFor(B), uni)
             THEN {"each-sample-served-exactly-once-after-compaction"} ELSE {})
+    (* phase 2: the same two sentences judged on what REAL store gateways (store.BucketStore on the same bucket)  *)
+    (* return from Series: gw[k] = [name, lagging, counts (how often each original sample came back), extra, err]. *)
+    (* "lagging" gateways sync only when time passes (at least every 23 h), the other one after every mutation     *)
+    (* and is restarted (fresh BucketStore) after every compactor run.                                             *)
+    \cup (IF \A g \in Range(e.gw) : g.err = "" /\ \A x \in uni : g.counts[x] >= 1 THEN {}
+            ELSE {"real-gateway-serves-every-original-sample-at-every-moment"})
+    \cup (IF \A g \in Range(e.gw) : g.extra = 0 THEN {} ELSE {"real-gateway-serves-no-invented-sample"})
+    \cup (IF e.ev = "Quiet" /\ e.err = "" /\ ~e.crashed
+             /\ \E g \in Range(e.gw) : ~g.lagging /\ g.err = "" /\ \E x \in uni : g.counts[x] # 1
+            THEN {"real-gateway-serves-each-sample-exactly-once-after-compaction"} ELSE {})
 
 (* "Compacting a group of blocks produces blocks holding exactly the samples of the sources"; never invents *)
 BlockClauses(e) ==
@@ -57,7 +69,13 @@ Step ==
                    /\ smp' = [i \in DOMAIN smp \cup {e.id} |-> IF i = e.id THEN Range(e.toks) ELSE SmpOf(i)]
                    /\ UNCHANGED <<uni, ign>>
             ELSE /\ CaseReject(l, e, StateClauses(e))
-                 /\ (IF e.ev = "End" /\ Range(e.sg) # { b.id : b \in SGServes(BlocksOf(e), ign) }
+                 /\ (IF \/ e.ev = "End" /\ Range(e.sg) # { b.id : b \in SGServes(BlocksOf(e), ign) }
+                        (* the gateway that follows every mutation serves what the model computes from the snapshot: a sample   *)
+                        (* comes back iff a served block holds it, and at most as often as served blocks hold it (BucketStore  *)
+                        (* drops identical chunks of overlapping blocks, so replicas' identical samples may come back once)    *)
+                        \/ \E g \in Range(e.gw) : ~g.lagging /\ g.err = "" /\
+                              \E x \in uni : LET m == ServedCount(BlocksOf(e), ign, SmpFor(BlocksOf(e)), x) IN
+                                               (g.counts[x] = 0) # (m = 0) \/ g.counts[x] > m
                        THEN PrintT(<<"DRIFT", l, e["case"]>>) ELSE TRUE)
                  /\ UNCHANGED <<smp, uni, ign>>
     /\ l' = l + 1
